@@ -265,6 +265,14 @@ func (s *Sim) CheckTx(tx []byte) (res abci.ResponseCheckTx, perr *PanicError) {
 }
 
 func (s *Sim) Query(path string, data []byte, h int64) (res abci.ResponseQuery, perr *PanicError) {
+	if path == "vm_call" {
+		installFakeBlockStore()
+		tip := s.H
+		if s.inBlock {
+			tip++
+		}
+		theFakeStore.setTip(tip)
+	}
 	perr = guard("Query:"+path, func() {
 		res = s.App.Query(abci.RequestQuery{Path: path, Data: data, Height: h})
 	})
